@@ -145,10 +145,18 @@ func ParseControl(reader *bufio.Reader, path string) (*Control, error) {
 		Source:   SourceParagraph{},
 	}
 
-	if err := Unmarshal(&ret.Source, reader); err != nil {
+	/* One decoder for both parts: two Unmarshal calls would each wrap the
+	 * reader in a buffered reader of their own (unless the caller's is at
+	 * least 4096 bytes large), and the first would read ahead into - and
+	 * lose - the binary paragraphs. */
+	decoder, err := NewDecoder(reader, nil)
+	if err != nil {
 		return nil, err
 	}
-	if err := Unmarshal(&ret.Binaries, reader); err != nil {
+	if err := decoder.Decode(&ret.Source); err != nil {
+		return nil, err
+	}
+	if err := decoder.Decode(&ret.Binaries); err != nil {
 		return nil, err
 	}
 
